@@ -860,7 +860,56 @@ func runC19Quadrant(c *Ctx) {
 			}
 		})
 		construct := "longitude recovery in a centred projection"
+		// the longitude handed back: the first argument of rtodxy, or what is stored into the result's X
+		var lons []ssa.Value
+		eachCall(f, func(call ssa.CallInstruction) {
+			if calleeName(call) == "carto.rtodxy" && len(call.Common().Args) == 2 {
+				lons = append(lons, call.Common().Args[0])
+			}
+		})
+		for _, r := range returnsOf(f) {
+			if len(r.Results) != 1 {
+				continue
+			}
+			if ld, ok := r.Results[0].(*ssa.UnOp); ok && ld.Op == token.MUL {
+				if al, ok := ld.X.(*ssa.Alloc); ok {
+					for _, ref := range *al.Referrers() {
+						if fa, ok := ref.(*ssa.FieldAddr); ok && fieldName(fa.X.Type(), fa.Field) == "X" {
+							for _, rr := range *fa.Referrers() {
+								if st, ok := rr.(*ssa.Store); ok && st.Addr == ssa.Value(fa) {
+									lons = append(lons, st.Val)
+								}
+							}
+						}
+					}
+				}
+			}
+		}
+		isCallTo := func(names ...string) func(ssa.Value) bool {
+			return func(x ssa.Value) bool {
+				call, ok := x.(*ssa.Call)
+				if !ok {
+					return false
+				}
+				for _, nm := range names {
+					if calleeName(call) == nm {
+						return true
+					}
+				}
+				return false
+			}
+		}
+		folded := ""
+		for _, lon := range lons {
+			viaAtan2 := computedFrom(lon, isCallTo("carto.atan2", "math.Atan2"))
+			viaHalf := computedFrom(lon, isCallTo("carto.asin", "math.Asin", "carto.acos", "math.Acos"))
+			if viaHalf && !viaAtan2 {
+				folded = c.P.Pos(lon.Pos())
+			}
+		}
 		switch {
+		case folded != "":
+			c.Bad(f.Pos(), fn, construct, "the longitude returned (at "+folded+") comes from an arc sine / arc cosine, whose values span 180° only: for a centre near a pole the true longitude offset exceeds ±90° and the result is mirrored (atan2 of the two components is needed)")
 		case atanQuot != nil:
 			c.Bad(atanQuot.Pos(), fn, construct, "uses atan(num/den) with a signed denominator: for a centre near a pole the true longitude offset exceeds ±90° and the result is folded by 180° (the sibling centred projection uses atan2)")
 		case usesAtan2:
